@@ -52,6 +52,41 @@ pub enum Res {
     Err,
 }
 
+/// Text attached to an event: built without allocation during exploration,
+/// rendered only when a trace is printed.
+#[derive(Clone, Debug)]
+pub enum Txt {
+    None,
+    S(&'static str),
+    Frame(Frame),
+    Refused(Frame, String),
+}
+
+impl From<&'static str> for Txt {
+    fn from(s: &'static str) -> Self {
+        Txt::S(s)
+    }
+}
+
+impl Txt {
+    pub fn render(&self) -> String {
+        match self {
+            Txt::None => String::new(),
+            Txt::S(s) => s.to_string(),
+            Txt::Frame(f) => frame_brief(f),
+            Txt::Refused(f, e) => format!("encoder refused {}: {e}", frame_brief(f)),
+        }
+    }
+    fn code(&self) -> u64 {
+        match self {
+            Txt::None => 0,
+            Txt::S(s) => s.len() as u64 ^ (s.as_bytes().first().copied().unwrap_or(0) as u64) << 8 ^ (s.as_bytes().last().copied().unwrap_or(0) as u64) << 16,
+            Txt::Frame(f) => frame_hash(f),
+            Txt::Refused(f, _) => frame_hash(f) ^ 0x5555,
+        }
+    }
+}
+
 #[derive(Clone, Debug)]
 pub enum Ev {
     EnvPoll(usize),
@@ -60,12 +95,13 @@ pub enum Ev {
     EnvDepart(String),
     EnvClose,
     Returned(&'static str),
-    Sink(usize, Op, Res, String),
-    Next(usize, String),
+    Sink(usize, Op, Res, Txt),
+    Next(usize, Txt),
     MapStart(u32, u32),
     DropSink(usize),
     DropStream(usize),
-    Note(String),
+    Note(Txt),
+    NoteOwned(String),
 }
 
 pub struct Touch {
@@ -109,6 +145,8 @@ pub struct SinkSt {
     pub reply_modes: Vec<ReplyMode>,
     pub fed: usize,
     pub err_budget: u8,
+    /// rolling hash of the accepted frames (for the canonical state hash)
+    pub acc_hash: u64,
     pub accepted_at_quiescence: usize,
     pub flushed_at_quiescence: usize,
 }
@@ -224,6 +262,7 @@ impl World {
             reply_modes: Vec::new(),
             fed: 0,
             err_budget: 1,
+            acc_hash: 0,
             accepted_at_quiescence: 0,
             flushed_at_quiescence: 0,
         });
@@ -260,9 +299,7 @@ impl World {
         h.u64(extra);
         for s in &self.sinks {
             h.u64(s.accepted.len() as u64);
-            for (_, f) in &s.accepted {
-                h.u64(frame_hash(f));
-            }
+            h.u64(s.acc_hash);
             h.u64(s.flushed as u64);
             h.u64(
                 (s.closed as u64)
@@ -292,7 +329,22 @@ impl World {
     pub fn trace_hash(&self) -> u64 {
         let mut h = StableHash::default();
         for e in &self.ev {
-            h.bytes(format!("{e:?}").as_bytes());
+            let c: u64 = match e {
+                Ev::EnvPoll(n) => 1 | (*n as u64) << 8,
+                Ev::EnvRegister(l) => 2 | (l.len() as u64) << 8 | (l.as_bytes().last().copied().unwrap_or(0) as u64) << 16 | (l.as_bytes().first().copied().unwrap_or(0) as u64) << 24,
+                Ev::EnvUnblock(l) => 3 | (l.len() as u64) << 8 | (l.as_bytes().get(1).copied().unwrap_or(0) as u64) << 16 | (l.as_bytes().first().copied().unwrap_or(0) as u64) << 24 | (l.as_bytes().last().copied().unwrap_or(0) as u64) << 32,
+                Ev::EnvDepart(l) => 4 | (l.as_bytes().get(1).copied().unwrap_or(0) as u64) << 16,
+                Ev::EnvClose => 5,
+                Ev::Returned(r) => 6 | (r.len() as u64) << 8,
+                Ev::Sink(i, op, res, t) => 7 | (*i as u64) << 8 | (*op as u64) << 16 | (*res as u64) << 20 | t.code().rotate_left(24),
+                Ev::Next(i, t) => 8 | (*i as u64) << 8 | t.code().rotate_left(24),
+                Ev::MapStart(n, s) => 9 | (*n as u64) << 8 | (*s as u64) << 24,
+                Ev::DropSink(i) => 10 | (*i as u64) << 8,
+                Ev::DropStream(i) => 11 | (*i as u64) << 8,
+                Ev::Note(t) => 12 | t.code() << 8,
+                Ev::NoteOwned(s) => 13 | (s.len() as u64) << 8,
+            };
+            h.u64(c);
         }
         h.finish()
     }
@@ -307,12 +359,16 @@ impl World {
                 Ev::EnvDepart(l) => format!("env: {l} departs"),
                 Ev::EnvClose => "env: close registration channel".into(),
                 Ev::Returned(r) => format!("  router returned {r}"),
-                Ev::Sink(i, op, res, what) => format!("  {}.{:?} -> {:?}{}", self.sinks[*i].label, op, res, if what.is_empty() { String::new() } else { format!(" [{what}]") }),
-                Ev::Next(i, what) => format!("  {}.poll_next -> {what}", self.streams[*i].label),
+                Ev::Sink(i, op, res, what) => {
+                    let w = what.render();
+                    format!("  {}.{:?} -> {:?}{}", self.sinks[*i].label, op, res, if w.is_empty() { String::new() } else { format!(" [{w}]") })
+                }
+                Ev::Next(i, what) => format!("  {}.poll_next -> {}", self.streams[*i].label, what.render()),
                 Ev::MapStart(n, s) => format!("  StreamMap({n}) starts at {s}"),
                 Ev::DropSink(i) => format!("  router dropped {}", self.sinks[*i].label),
                 Ev::DropStream(i) => format!("  router dropped {}", self.streams[*i].label),
-                Ev::Note(s) => format!("  note: {s}"),
+                Ev::Note(s) => format!("  note: {}", s.render()),
+                Ev::NoteOwned(s) => format!("  note: {s}"),
             })
             .collect()
     }
@@ -323,19 +379,45 @@ pub fn frame_hash(f: &Frame) -> u64 {
     match f {
         Frame::Message(p) => {
             h.u64(4);
-            h.bytes(&p.message);
+            h.bytes(&p.message[..p.message.len().min(64)]);
+            h.u64(p.message.len() as u64);
             if let Some(hd) = &p.headers {
-                let mut kv: Vec<_> = hd.iter().collect();
-                kv.sort();
-                for (k, v) in kv {
-                    h.bytes(k.as_bytes());
-                    h.bytes(v.as_bytes());
+                // order independent
+                let mut x = hd.len() as u64;
+                for (k, v) in hd.iter() {
+                    let mut e = StableHash::default();
+                    e.bytes(k.as_bytes());
+                    e.bytes(v.as_bytes());
+                    x ^= e.finish();
                 }
+                h.u64(x);
+            } else {
+                h.u64(0xff);
             }
         }
+        Frame::BatchMessage(b) => {
+            h.u64(5);
+            h.bytes(&b[..b.len().min(64)]);
+            h.u64(b.len() as u64);
+        }
+        Frame::Error(e) => {
+            h.u64(6);
+            h.u64(e.code as u64);
+            h.bytes(&e.message[..e.message.len().min(64)]);
+        }
+        Frame::Ok => h.u64(7),
         other => {
             h.u64(other.get_type() as u64);
-            h.bytes(format!("{other:?}").as_bytes());
+            if let Some(t) = other.get_topic() {
+                h.bytes(t.namespace().as_bytes());
+                h.bytes(t.topic().as_bytes());
+            }
+            if let Frame::RegisterPublisher(p) = other {
+                h.u64(p.retention_policy);
+            }
+            if let Frame::RegisterSubscriber(p) = other {
+                h.u64(p.retention_policy);
+            }
         }
     }
     h.finish()
@@ -476,20 +558,20 @@ impl MockSink {
                     }
                     Op::Send => unreachable!(),
                 }
-                g.ev.push(Ev::Sink(id, op, Res::Ok, String::new()));
+                g.ev.push(Ev::Sink(id, op, Res::Ok, Txt::None));
                 Poll::Ready(Ok(()))
             }
             1 => {
                 g.sinks[id].blocked = true;
                 g.sinks[id].waker = Some(cx.waker().clone());
                 g.sink_pending_in_poll = true;
-                g.ev.push(Ev::Sink(id, op, Res::Pending, String::new()));
+                g.ev.push(Ev::Sink(id, op, Res::Pending, Txt::None));
                 Poll::Pending
             }
             _ => {
                 g.sinks[id].failed = Some(clock);
                 g.sinks[id].err_budget -= 1;
-                g.ev.push(Ev::Sink(id, op, Res::Err, String::new()));
+                g.ev.push(Ev::Sink(id, op, Res::Err, Txt::None));
                 fail_pair(&mut g, id);
                 Poll::Ready(Err(io_err()))
             }
@@ -598,18 +680,20 @@ impl Sink<Frame> for MockSink {
         // exactly what FramedWrite<_, MessageCodec>::start_send would do
         let mut scratch = BytesMut::new();
         if let Err(e) = MessageCodec.encode(item.clone(), &mut scratch) {
-            g.ev.push(Ev::Sink(id, Op::Send, Res::Err, format!("encoder refused {}: {e}", frame_brief(&item))));
+            g.ev.push(Ev::Sink(id, Op::Send, Res::Err, Txt::Refused(item.clone(), e.to_string())));
             return Err(e);
         }
         let can_fail = faults && g.sinks[id].err_budget > 0;
         if can_fail && g.choose(K_SEND, 2) == 1 {
             g.sinks[id].failed = Some(clock);
             g.sinks[id].err_budget -= 1;
-            g.ev.push(Ev::Sink(id, Op::Send, Res::Err, frame_brief(&item)));
+            g.ev.push(Ev::Sink(id, Op::Send, Res::Err, Txt::Frame(item.clone())));
             fail_pair(&mut g, id);
             return Err(io_err());
         }
-        g.ev.push(Ev::Sink(id, Op::Send, Res::Ok, frame_brief(&item)));
+        g.ev.push(Ev::Sink(id, Op::Send, Res::Ok, Txt::Frame(item.clone())));
+        let fh = frame_hash(&item);
+        g.sinks[id].acc_hash = g.sinks[id].acc_hash.rotate_left(7) ^ fh;
         g.sinks[id].accepted.push((clock, item));
         g.progress += 1;
         Ok(())
@@ -691,7 +775,7 @@ impl Stream for MockStream {
                         g.streams[id].yielded.push((clock, f.clone()));
                         g.yielded.push((clock, id, f.clone()));
                         g.progress += 1;
-                        g.ev.push(Ev::Next(id, frame_brief(&f)));
+                        g.ev.push(Ev::Next(id, Txt::Frame(f.clone())));
                         Poll::Ready(Some(Ok(f)))
                     }
                     1 => {
